@@ -1,4 +1,4 @@
-"""C01 - Every trace agrees with assess on its own choices and arguments: invariant evaluated in every state of the BFS over GFI histories (simulate leaves, update, regenerate successors)."""
+"""C01 - Every trace agrees with assess on its own choices and arguments: invariant evaluated in every state of the BFS over GFI histories (simulate leaves, update, regenerate and IndexRequest successors)."""
 
 from __future__ import annotations
 
@@ -11,7 +11,7 @@ KINDS = ("update", "regenerate", "index")
 RULE = (
     "explicit-state BFS per catalog program: initial states = every leaf of the simulate tree for each argument "
     "tuple; transitions = real edit calls (update with every single-address alternative value, pairs, empty "
-    "constraint under every argument change/tagging; Regenerate over the selection alphabet), every random outcome "
+    "constraint under every argument change/tagging; Regenerate over the selection alphabet; IndexRequest(i, Update/Regenerate) at every index of vector programs), every random outcome "
     "enumerated; distinct = (program, predecessor trace hash, request, successor assignment); non-trivial = reached "
     "by at least one edit"
 )
